@@ -262,9 +262,7 @@ def _platpair_chunk(states):
         if newer and not tp <= tq:
             fails.append((f"C16:platform({st['p']['os']},{st['p']['arch']}):newer-loses-tags",
                           f"{p} accepts {sorted(tp - tq)[:3]} which the newer {q} does not", {"p": st["p"], "q": st["q"]}))
-        if (tp <= tq) != st["obs"]["sub"]:
-            fails.append((f"C16:platform({st['p']['os']},{st['p']['arch']}):nesting-differs-from-spec",
-                          f"tags({p}) <= tags({q}) is {tp <= tq}, specification says {st['obs']['sub']}", {"p": st["p"], "q": st["q"]}))
+        # (whether unrelated platforms happen to nest is not part of the property: no clause for it)
     return n, fails
 
 
